@@ -42,6 +42,7 @@ def gen_case(rng, tier, idx):
     total = float(max(1.0, info['N'])) if known else None
     return dict(attrs=attrs, shape=shape, meas=meas, N=info['N'], structure=info['structure'], solver=solver, total=total,
                 spellings=[gen.pick(rng, ['dense', 'dense', 'csr', 'linop']) for _ in meas],
+                proj_forms=[gen.pick(rng, ['tuple', 'tuple', 'list', 'str']) for _ in meas],
                 np_seed=int(rng.randint(2 ** 31)))
 
 
@@ -55,7 +56,7 @@ def describe(case):
 def run_case(case, ctx):
     attrs, shape, solver = case['attrs'], case['shape'], case['solver']
     dom = models.make_domain(attrs, shape)
-    tuples = measure.as_tuples(case['meas'], case['spellings'])
+    tuples = measure.as_tuples(case['meas'], case['spellings'], case.get('proj_forms'))
     plain = measure.plain_tuples(case['meas'])
     ctx.tag('solver:' + solver)
     ctx.tag('structure:' + case['structure'])
